@@ -203,8 +203,9 @@ pub fn execute(c: &LayoutCase) -> LayoutObs {
             o.decode = format!("{:?}", out.trace);
             o.decoded_tramp = out.hops.first().copied();
             // call only if the entry leads into the one mapping that was kept
-            if let (Some(d), true) = (o.decoded_tramp, !live.is_empty()) {
-                if live.contains_key(&(d & !0xFFF)) {
+            if let Some(d) = o.decoded_tramp {
+                // (or nothing was kept and the entry leads straight to the fake)
+                if live.contains_key(&(d & !0xFFF)) || live.is_empty() {
                     let full = x86_follow(&m, addr as u64, &[targets::f_u1 as fn() -> u64 as usize as u64], 6);
                     // (bytes the decoder does not know are not a verdict: the isolated worker runs
                     // the call and the returned value decides)
@@ -315,7 +316,10 @@ pub fn judge(rec: &mut Recorder, c: &LayoutCase, ex: Exec, _hello: &Value) -> Re
                 return rec.fail(&sig("rejected-placement-left-mapped"), format!("after a successful installation an out-of-range mapping {a:#x} (target {:#x}) is still mapped; outstanding {:x?}; case {c:?}", o.target, o.outstanding_after_install));
             }
         }
-        if !o.outstanding_after_install.iter().any(|(ta, tl)| tr >= *ta && tr < ta + (*tl).max(1).max(4096)) {
+        // (an installation that keeps no mapping may branch straight to the fake: then the call
+        // below decides)
+        let straight = o.outstanding_after_install.is_empty() && o.mmap_granted == o.munmaps;
+        if !straight && !o.outstanding_after_install.iter().any(|(ta, tl)| tr >= *ta && tr < ta + (*tl).max(1).max(4096)) {
             return rec.fail(&sig("branch-misses-trampoline"), format!("entry branches to {tr:#x}, which is not inside a mapping the injector kept ({:x?}); case {c:?}", o.outstanding_after_install));
         }
         let expect = if c.boolean { 1 } else { 1001 };
